@@ -160,32 +160,36 @@ def harness_bin(name):
     return os.path.join(target_dir(os.path.join(HARNESS, "target")), "release", name)
 
 
-def run_lines(binary, lines, extra_args=(), timeout=3600):
-    """Feed `lines` to `binary` on stdin; one output line per input line."""
-    if not lines:
-        return []
-    data = "\n".join(lines) + "\n"
-    p = subprocess.run([binary, *extra_args], input=data, stdout=subprocess.PIPE, stderr=subprocess.PIPE, text=True, env=ENV, timeout=timeout)
-    out = p.stdout.split("\n")
-    if out and out[-1] == "":
-        out.pop()
-    if p.returncode != 0 or len(out) != len(lines):
-        # the process died (abort / stack overflow / OOM): find the line by bisection
-        return recover(binary, lines, extra_args, out, p.returncode)
-    return out
-
-
-def recover(binary, lines, extra_args, partial, rc):
-    """The binary crashed part-way: results up to the crash are kept, the crashing line is
-    reported as `crash`, and the rest is re-run."""
-    res = list(partial[:len(lines)])
-    k = len(res)
-    if k >= len(lines):
-        return res[:len(lines)]
-    res.append(f"crash rc={rc}")
-    rest = lines[k + 1:]
-    if rest:
-        res += run_lines(binary, rest, extra_args)
+def run_lines(binary, lines, extra_args=(), timeout=3600, max_crashes=200):
+    """Feed `lines` to `binary` on stdin; one output line per input line.  If the process dies part-way
+    (abort, stack overflow, allocation failure) the line it died on is reported as `crash rc=<n>` and the
+    rest is fed to a fresh process (iteratively; after `max_crashes` deaths the remainder is `crash-skipped`)."""
+    res = []
+    rest = list(lines)
+    crashes = 0
+    while rest:
+        data = "\n".join(rest) + "\n"
+        try:
+            p = subprocess.run([binary, *extra_args], input=data, stdout=subprocess.PIPE, stderr=subprocess.PIPE, text=True,
+                               env=ENV, timeout=timeout)
+            out, rc = p.stdout.split("\n"), p.returncode
+        except subprocess.TimeoutExpired as e:
+            out, rc = ((e.stdout or b"").decode("utf8", "replace") if isinstance(e.stdout, bytes) else (e.stdout or "")).split("\n"), -9
+        if out and out[-1] == "":
+            out.pop()
+        if rc == 0 and len(out) == len(rest):
+            res += out
+            break
+        k = min(len(out), len(rest))
+        res += out[:k]
+        if k >= len(rest):
+            break
+        res.append(f"crash rc={rc}")
+        rest = rest[k + 1:]
+        crashes += 1
+        if crashes >= max_crashes:
+            res += ["crash-skipped"] * len(rest)
+            break
     return res
 
 
@@ -395,7 +399,10 @@ def check(pid, tier, seed, replay=None):
             kinds[k] = kinds.get(k, 0) + 1
             if st.nontrivial(op, i):
                 nontriv.add(hash((st.name, op)))
-            v = st.judge(op, i, m, s)
+            if i.startswith("crash") or i == "panic":
+                v = "violation"      # the real library died or panicked on this op: a failing input for any property
+            else:
+                v = st.judge(op, i, m, s)
             if v == "corr" and (i.startswith("ok ") or m.startswith("ok ")):
                 # model and code disagree on a successful decode (value / position) or on whether there is one:
                 # that is an observable every property constrains, so the op is a failing input, not a mere mismatch
